@@ -530,7 +530,20 @@ class dir_archive(archive):
 
     def _rmdir(self, key):
         "remove results subdirectory corresponding to given key"
-        rmtree(self._getdir(key), self=True, ignore_errors=True)
+        _dir = self._getdir(key)
+        if not os.path.exists(_dir): return
+        # first move the entry out of the entry namespace (atomic rename onto
+        # an empty temporary directory), so it is never seen half-removed
+        import tempfile
+        try:
+            _temp = tempfile.mkdtemp(prefix=TEMP, dir=self.__state__['id'])
+            try:
+                os.rename(_dir, _temp)
+                _dir = _temp
+            except OSError: # cannot be moved; remove in place
+                os.rmdir(_temp)
+        except OSError: pass
+        rmtree(_dir, self=True, ignore_errors=True)
         return
     def _lsdir(self):
         "get a list of subdirectories in the root directory"
